@@ -287,6 +287,13 @@ Theorem C01_source_cdevice2_deriv : forall n pl ph (cbs : list (cbound R)) (s p 
   CDevice2_deriv n pl ph cbs s p = cdev2_deriv pl ph cbs s p.
 Proof. intros n pl ph cbs s p. apply gen_cdevice2_deriv. Qed.
 
+(* DemandFunction regenerated from functions.py: the inner polynomial at np.max(x); deriv puts the polynomial's derivative at x[argmax] into a
+   zero vector at index argmax *)
+Theorem C01_source_demand_function : forall (c x : list R),
+  DemandFunction_call c x = feval (FDemand c) x /\ DemandFunction_deriv c x = fderiv (FDemand c) x.
+Proof. intros c x. exact (gen_demand c x). Qed.
+
+
 
 
 
